@@ -170,7 +170,7 @@ func finish(cfg *Config, L *Loaded, reports []*HarnessReport, kf *KnownFindings,
 		r, ok := results[p.c.ID]
 		switch p.kind {
 		case "violation":
-			replayPath := filepath.Join(cfg.Verif, "out", cfg.ID, fmt.Sprintf("cex_%d.json", p.c.ID))
+			replayPath := filepath.Join(cfg.workDir(), "out", cfg.ID, fmt.Sprintf("cex_%d.json", p.c.ID))
 			writeJSON(replayPath, map[string]interface{}{"property": cfg.ID, "case": p.c, "violation": p.v, "native": r.Outcome})
 			if cfg.NoNative {
 				nViol++
@@ -218,7 +218,7 @@ func finish(cfg *Config, L *Loaded, reports []*HarnessReport, kf *KnownFindings,
 			validated++
 		} else {
 			mismatches++
-			mf := filepath.Join(cfg.Verif, "out", cfg.ID, fmt.Sprintf("mismatch_%d.json", sp.c.ID))
+			mf := filepath.Join(cfg.workDir(), "out", cfg.ID, fmt.Sprintf("mismatch_%d.json", sp.c.ID))
 			writeJSON(mf, map[string]interface{}{"case": sp.c, "symbolic": sp.s.Observed, "native": r})
 			inconclusive = append(inconclusive, fmt.Sprintf("encoding mismatch: %s path %s: symbolic run ended ok with %v, native run gave %s %v (see %s)",
 				sp.s.Harness, sp.s.Path, sp.s.Observed, r.Outcome, r.Observed, mf))
@@ -246,9 +246,9 @@ func finish(cfg *Config, L *Loaded, reports []*HarnessReport, kf *KnownFindings,
 
 	// evidence
 	ev := buildEvidence(cfg, L, reports, validated, mismatches, nViol, knownSeenIDs, inconclusive, cross, time.Since(t0).Seconds())
-	os.MkdirAll(filepath.Join(cfg.Verif, "evidence"), 0755)
+	os.MkdirAll(filepath.Join(cfg.workDir(), "evidence"), 0755)
 	if cfg.Only == "" {
-		if err := writeJSON(filepath.Join(cfg.Verif, "evidence", cfg.ID+".json"), ev); err != nil {
+		if err := writeJSON(filepath.Join(cfg.workDir(), "evidence", cfg.ID+".json"), ev); err != nil {
 			fmt.Fprintln(os.Stderr, "evidence:", err)
 		}
 	}
@@ -425,7 +425,7 @@ func replayFile(cfg *Config, L *Loaded, kf *KnownFindings) int {
 		fmt.Fprintln(os.Stderr, err)
 		return 2
 	}
-	outDir := filepath.Join(cfg.Verif, "out", cfg.ID+"_replay")
+	outDir := filepath.Join(cfg.workDir(), "out", cfg.ID+"_replay")
 	os.MkdirAll(outDir, 0755)
 	defer os.RemoveAll(outDir)
 	nb := newNativeBuilder(cfg, L, outDir)
